@@ -47,6 +47,11 @@ func (l *LSTM) Init(n *onnx.NodeProto) error {
 				activations = append(activations, string(activation))
 			}
 
+			// The forward direction needs three activation functions.
+			if len(activations) != 3 {
+				return ops.ErrInvalidAttribute(attr.GetName(), l)
+			}
+
 			l.activations = activations
 		case ops.ClipAttr:
 			return ops.ErrUnsupportedAttribute(attr.GetName(), l)
